@@ -1004,6 +1004,8 @@ pub enum RealKind {
     NoSchema,
     /// save_file_compressed / load_file
     Compressed,
+    /// save_to_mem / load_from_mem (the bytes are parked in the file in between)
+    Mem,
 }
 impl RealKind {
     pub fn name(self) -> &'static str {
@@ -1012,6 +1014,7 @@ impl RealKind {
             RealKind::Plain => "plain",
             RealKind::NoSchema => "noschema",
             RealKind::Compressed => "compressed",
+            RealKind::Mem => "mem",
         }
     }
     pub fn from_config(cfg: &str) -> RealKind {
@@ -1021,6 +1024,8 @@ impl RealKind {
             RealKind::NoSchema
         } else if cfg.ends_with("-compressed") {
             RealKind::Compressed
+        } else if cfg.ends_with("-mem") {
+            RealKind::Mem
         } else {
             RealKind::Encrypted
         }
@@ -1123,6 +1128,7 @@ where
             RealKind::Plain => savefile::save_file(path, T::VERSION, v),
             RealKind::NoSchema => savefile::save_file_noschema(path, T::VERSION, v),
             RealKind::Compressed => savefile::save_file_compressed(path, T::VERSION, v),
+            RealKind::Mem => Ok(std::fs::write(path, savefile::save_to_mem(T::VERSION, v)?)?),
         }
     }
     fn load_real(&self, path: &std::path::Path, kind: RealKind, password: &str) -> Result<Val, SavefileError> {
@@ -1130,6 +1136,7 @@ where
             RealKind::Encrypted => savefile::load_encrypted_file::<T, _>(path, T::VERSION, password)?,
             RealKind::Plain | RealKind::Compressed => savefile::load_file::<T, _>(path, T::VERSION)?,
             RealKind::NoSchema => savefile::load_file_noschema::<T, _>(path, T::VERSION)?,
+            RealKind::Mem => savefile::load_from_mem::<T>(&std::fs::read(path)?, T::VERSION)?,
         }))
     }
     fn debug(&self, v: &Val) -> String {
@@ -1459,6 +1466,7 @@ impl Subject for UpSubj {
             RealKind::Plain => savefile::save_file(path, 0, old),
             RealKind::NoSchema => savefile::save_file_noschema(path, 0, old),
             RealKind::Compressed => savefile::save_file_compressed(path, 0, old),
+            RealKind::Mem => Ok(std::fs::write(path, savefile::save_to_mem(0, old)?)?),
         }
     }
     fn load_real(&self, path: &std::path::Path, kind: RealKind, password: &str) -> Result<Val, SavefileError> {
@@ -1466,6 +1474,7 @@ impl Subject for UpSubj {
             RealKind::Encrypted => savefile::load_encrypted_file::<UpNew, _>(path, 1, password)?,
             RealKind::Plain | RealKind::Compressed => savefile::load_file::<UpNew, _>(path, 1)?,
             RealKind::NoSchema => savefile::load_file_noschema::<UpNew, _>(path, 1)?,
+            RealKind::Mem => savefile::load_from_mem::<UpNew>(&std::fs::read(path)?, 1)?,
         };
         Ok(Box::new(UpVal { old: None, new }))
     }
